@@ -12,7 +12,8 @@
 (* A Limit(n) may also sit directly above the leaf, under the key levels (one quota per *)
 (* bucket); leaves also include Sample(n) and the two-value list [val, val * 10].       *)
 (* Items are integers VInt(i), words VStr(w) or pairs VTup(<<int, word>>) (orderable,   *)
-(* non-numeric: what Max / Min / First compare), or IdVal(l) = "the integer id() of the dict / list     *)
+(* non-numeric: what Max / Min / First compare), objects with a hostile __eq__ ([k:"any", i]: equal *)
+(* to everything, [k:"strict", i]: comparing with a foreign object raises), or IdVal(l) = "the integer id() of the dict / list     *)
 (* spec object at level l" (the values that collide with accumulator-tree keys).      *)
 (* The spec nodes, aggregators and key specs of different levels are distinct objects. *)
 (*                                                                                   *)
@@ -33,7 +34,7 @@ EXTENDS GlomData
 CONSTANTS Fixes,     \* subset of {"stop", "skiptrace"}: candidate repairs applied to the
                      \* transcribed mechanism ({} = the code as it is)
           Mutant     \* "none" | "carry" | "avgint" | "limit1" | "firstlast" | "curagg" | "minnum" | "sampledrop" |
-                     \* "list2swap" | "rawbucket" | "nobase":
+                     \* "list2swap" | "eqskip" | "eager" | "rawbucket" | "nobase":
                      \* wrong mechanisms the laws must reject (vacuity check); the last two are
                      \* the mechanisms of glom before fd673fd / b769243
 
@@ -194,6 +195,21 @@ RefDefined(spec, xs) ==
   /\ spec[Body(spec)].op \in {"dict", "list", "list2"} \/ Kept(spec, xs) # <<>>
   /\ SampleFits(spec, xs)
 
+\* A lazy source that fails (raises) when asked for the item after xs.  The hand-written loop
+\* takes items one at a time and is finished once a top-level Limit(n) has passed n values on
+\* or a top-level First() has its value: it then never touches the rest of the source.
+NoCap == 999
+TopCap(sp) ==
+  LET a == IF sp[1].op = "limit" THEN sp[1].n ELSE NoCap
+      L == sp[Body(sp)]
+      b == IF L.op = "agg" /\ L.agg = "First" THEN 1 ELSE NoCap
+  IN IF a < b THEN a ELSE b
+RefEval(sp, xs, faulted) ==
+  IF ~faulted \/ Len(xs) > TopCap(sp) THEN RefGroup(sp, xs) ELSE VExc("SourceError")
+\* (whether the loop looks at the source once more after the value that fills it is not decided)
+RefEvalDefined(sp, xs, faulted) ==
+  IF ~faulted \/ Len(xs) > TopCap(sp) THEN RefDefined(sp, xs) ELSE Len(xs) < TopCap(sp)
+
 \* ================================================================================
 \* PART 2.  The mechanism: glom/grouping.py, glom/reduction.py (group mode)
 \* ================================================================================
@@ -306,7 +322,8 @@ GEval(spec, h, ta, l, x) ==
                     ELSE DSet(Append(h, Cell("list", <<>>)), ta, sid, VRef(NewAddr(h)))
              acc == DGet(h1, ta, sid)
              v   == ValApply(L.val, x)
-         IN IF v = SKIP THEN RetAcc(h1, acc)
+         \* `result is not SKIP`: identity (mutant "eqskip": ==, which an equal-to-everything value satisfies)
+         IN IF v = SKIP \/ (Mutant = "eqskip" /\ v.k = "any") THEN RetAcc(h1, acc)
             ELSE R([h1 EXCEPT ![acc.a].items = Append(@, v)], acc)
     [] L.op = "list2" ->                                           \* GROUP(), list branch, two value specs
          LET sid == IdVal(l)
@@ -329,8 +346,8 @@ EvNew(spec, h, root) ==
       b  == spec[BaseLevel(spec)].op
   IN IF b \in {"dict", "list", "list2"}
      THEN [h |-> Append(h1, Cell(IF b = "dict" THEN "dict" ELSE "list", <<>>)),
-           ev |-> [items |-> <<>>, root |-> rt, ret |-> VRef(NewAddr(h1)), stopped |-> FALSE]]
-     ELSE [h |-> h1, ev |-> [items |-> <<>>, root |-> rt, ret |-> VNone, stopped |-> FALSE]]
+           ev |-> [items |-> <<>>, root |-> rt, ret |-> VRef(NewAddr(h1)), stopped |-> FALSE, faulted |-> FALSE]]
+     ELSE [h |-> h1, ev |-> [items |-> <<>>, root |-> rt, ret |-> VNone, stopped |-> FALSE, faulted |-> FALSE]]
 
 \* the loop body   last, ret = ret, scope[glom](t, self.spec, scope);  if ret is STOP: return last
 EvFeed(spec, h, ev, x) ==
@@ -342,6 +359,13 @@ EvFeed(spec, h, ev, x) ==
        ELSE IF IsExc(res.r)
        THEN [h |-> res.h, ev |-> [ev EXCEPT !.items = Append(@, x), !.stopped = TRUE, !.ret = res.r]]
        ELSE [h |-> res.h, ev |-> [ev EXCEPT !.items = Append(@, x), !.ret = res.r]]
+
+\* the source raises when the loop asks it for the next item: for t in target_iter(..) propagates it -
+\* unless Group.glomit has already returned (the items are pulled one at a time; mutant "eager":
+\* the whole source is drained before the first item is grouped)
+EvFault(ev) ==
+  IF ev.stopped /\ Mutant # "eager" THEN [ev EXCEPT !.faulted = TRUE]
+  ELSE [ev EXCEPT !.faulted = TRUE, !.stopped = TRUE, !.ret = VExc("SourceError")]
 
 \* structural value of a result
 RECURSIVE DeepV(_, _)
@@ -374,7 +398,8 @@ gvars == <<spec, heap, evals, stack, hist>>
 
 Decorate(sp, h, ev, open) ==          \* what the harness compares: out = mechanism, pred = law
   [items |-> ev.items, root |-> ev.root, ret |-> ev.ret, stopped |-> ev.stopped, open |-> open,
-   out |-> DeepV(h, ev.ret), pred |-> RefGroup(sp, ev.items), def |-> RefDefined(sp, ev.items)]
+   faulted |-> ev.faulted, out |-> DeepV(h, ev.ret),
+   pred |-> RefEval(sp, ev.items, ev.faulted), def |-> RefEvalDefined(sp, ev.items, ev.faulted)]
 
 \* Group.glomit entry: fresh ACC_TREE (mutant "carry": the tree lives on the spec object)
 NewEvaluation ==
@@ -394,6 +419,15 @@ Feed(x) ==
         /\ evals' = [evals EXCEPT ![e] = Decorate(spec, n.h, n.ev, TRUE)]
   /\ hist' = Append(hist, [a |-> "feed", x |-> x])
   /\ UNCHANGED stack
+
+\* the (lazy) target of the innermost evaluation raises instead of yielding its next item
+Fault ==
+  /\ stack # <<>>
+  /\ LET e == stack[Len(stack)] IN
+     /\ ~evals[e].faulted
+     /\ evals' = [evals EXCEPT ![e] = Decorate(spec, heap, EvFault(evals[e]), TRUE)]
+  /\ hist' = Append(hist, [a |-> "fault"])
+  /\ UNCHANGED <<heap, stack>>
 
 \* the target is exhausted: Group.glomit returns ret
 Finish ==
